@@ -266,116 +266,186 @@ def check_scratch(ctx):
                       sample={"holder": f"{cname}.{attr}"})
     except AnalysisError as ex_:
         ctx.error("C03.S", f"get_current_registers cannot be evaluated: {ex_}")
-    # the value that is recorded must be the one that was type-tested as a Register
-    flows = []
-    for c in added:
-        if not c.args:
-            continue
-        a = c.args[0]
-        inner = a.args[0] if isinstance(a, ast.Call) and dotted(a.func) == "str" and a.args else a
-        tested = []
-        for t, pol in G.path_conditions(gcr, c):
-            if pol and isinstance(t, ast.Call) and dotted(t.func) == "isinstance" and len(t.args) == 2 and "Register" in A.norm(t.args[1]):
-                tested.append(A.norm(t.args[0]))
-        flows.append((A.norm(inner), tested))
-    ok_flow = bool(flows) and all(v in tested for v, tested in flows)
-    ctx.check("C03.S", "get_current_registers:records-the-value-it-tested", ok_flow,
-              f"get_current_registers records {[f[0] for f in flows]} under isinstance tests on {[f[1] for f in flows]}: the recorded value is not the one tested to be a Register, "
-              f"so registers reached through array operands are skipped (or non-registers recorded)", repo.loc(m, gcr), sample={"recorded_vs_tested": flows})
-    # element representation: what is added vs what is tested
-    add_repr = None
-    for c in added:
-        if c.args:
-            a = c.args[0]
-            add_repr = "str" if isinstance(a, ast.Call) and dotted(a.func) == "str" else "raw"
-    # selection loop in reg_and_set_cmd
-    inner = [f for f in A.nested_defs(rc)]
-    sel = None
-    for f in [rc] + inner:
-        for loop in [n for n in ast.walk(f) if isinstance(n, ast.For)]:
-            for st in loop.body:
-                if isinstance(st, ast.If) and any(isinstance(x, ast.Break) for x in st.body):
-                    sel = (f, loop, st)
-    if sel is None:
-        ctx.error("C03.S", "scratch-register selection loop (for ... if ...: break) not found in _replace_constants")
-        return
-    f, loop, ifst = sel
-    ctx.fn("text._replace_constants.reg_and_set_cmd")
-    # name bound to get_current_registers(...)
-    cur_names = [k for k, v in A.single_defs(rc).items() if isinstance(v, ast.Call) and A.call_name(v) == "get_current_registers"]
-    cur_arg_ok = False
-    for k, v in A.single_defs(rc).items():
-        if isinstance(v, ast.Call) and A.call_name(v) == "get_current_registers":
-            params = A.param_names(rc)
-            cur_arg_ok = len(v.args) == 1 and isinstance(v.args[0], ast.Name) and v.args[0].id == params[0]
-    ctx.check("C03.S", "_replace_constants:registers-of-whole-program", bool(cur_names) and cur_arg_ok,
-              "the set of registers in use is not computed from the whole command list passed to _replace_constants", repo.loc(m, rc))
-    conj = ifst.test.values if isinstance(ifst.test, ast.BoolOp) and isinstance(ifst.test.op, ast.And) else [ifst.test]
-    regvar = None
-    for st in loop.body:
-        if isinstance(st, ast.Assign) and isinstance(st.targets[0], ast.Name) and isinstance(st.value, ast.Call) and A.call_name(st.value) == "Register":
-            regvar = st.targets[0].id
-    excl_cur = excl_tmp = False
-    test_repr = None
-    tmp_param = None
-    params = A.param_names(f)
-    for c in conj:
-        if isinstance(c, ast.Compare) and len(c.ops) == 1 and isinstance(c.ops[0], ast.NotIn):
-            cont = c.comparators[0]
-            left = c.left
-            rep = "str" if isinstance(left, ast.Call) and dotted(left.func) == "str" else "raw"
-            inner_name = left.args[0] if rep == "str" and left.args else left
-            if not (isinstance(inner_name, ast.Name) and inner_name.id == regvar):
+    check_replace_constants(ctx, m, rc, reg, R_, opm, icmd, blab)
+
+
+def check_replace_constants(ctx, m, rc, reg, R_, opm, icmd, blab):
+    """C03.S, second half: _replace_constants (with whatever helpers and closures it uses) is executed by the checker's interpreter
+    on small programs and its result is judged against the statement of the property, not against a particular way of writing
+    the search for a scratch register:
+      - every literal in a non-exempt operand position, array index or slice bound is replaced by a register, and a `set` of
+        exactly that register to exactly that literal is inserted directly before the command (nothing else is added, removed or
+        reordered; labels stay where they are);
+      - that register is named nowhere in the source program - at top level, as an array index or as a slice bound of any
+        command, before or after - and is not used for another literal of the same command;
+      - literals in the exempt (immediate) positions stay literals;
+      - when the program leaves no register free, assembling fails instead of overwriting a live register."""
+    from .. import circuit as C
+    repo = ctx.repo
+    ctx.fn("text._replace_constants")
+    gi = repo.get_class(IR_MOD, "GenericInstr")
+    gmem = ctx.ev.enum_members(gi)
+    exc = exception_table(ctx)
+    ADDR, ENTRY, SLICE = (opm.classes[n_] for n_ in ("Address", "ArrayEntry", "ArraySlice"))
+
+    def instr(name):
+        return EnumMember(gi.qualname, name, gmem[name])
+
+    free_instr = next((n_ for n_ in sorted(gmem) if not any(e[0] == n_ for e in exc)), None)
+    exempt = sorted(exc)[0] if exc else None
+    if free_instr is None:
+        raise AnalysisError("no instruction without exempt operand positions")
+
+    def cmd(name, operands, lineno=None):
+        return C.Obj(icmd, {"instruction": instr(name), "args": [], "operands": list(operands), "lineno": lineno})
+
+    def entry(index):
+        return C.Obj(ENTRY, {"address": C.Obj(ADDR, {"address": 0}), "index": index})
+
+    def slc(start, stop):
+        return C.Obj(SLICE, {"address": C.Obj(ADDR, {"address": 0}), "start": start, "stop": stop})
+
+    def regs(k, lo=0):
+        return [reg("R", i) for i in range(lo, lo + k)]
+
+    def is_reg(x):
+        return isinstance(x, C.Obj) and x.cls is R_
+
+    def rname(x):
+        nm = x.fields.get("name")
+        return f"{nm.name if isinstance(nm, EnumMember) else nm}{x.fields.get('index')}"
+
+    def literal_sites(c):
+        """(kind, position/attribute, value) of the literals of a source command that must be materialised"""
+        out = []
+        iname = c.fields["instruction"].name
+        for j, op in enumerate(c.fields["operands"]):
+            if isinstance(op, int) and (iname, j) not in exc:
+                out.append(("operand", j, None, op))
+            elif isinstance(op, C.Obj) and op.cls is ENTRY and isinstance(op.fields["index"], int):
+                out.append(("entry", j, "index", op.fields["index"]))
+            elif isinstance(op, C.Obj) and op.cls is SLICE:
+                for a_ in ("start", "stop"):
+                    if isinstance(op.fields[a_], int):
+                        out.append(("slice", j, a_, op.fields[a_]))
+        return out
+
+    def named_registers(program):
+        out = set()
+        for c in program:
+            if c.cls is not icmd:
                 continue
-            if isinstance(cont, ast.Name) and cont.id in cur_names:
-                excl_cur = True
-                test_repr = rep
-            elif isinstance(cont, ast.Name) and cont.id in params:
-                excl_tmp = rep == "raw"
-                tmp_param = cont.id
-    ctx.check("C03.S", "reg_and_set_cmd:excludes-program-registers", excl_cur,
-              f"the scratch register is chosen without testing `{regvar} not in <registers of the program>` ({src(ifst.test)})", repo.loc(m, ifst))
-    ctx.check("C03.S", "reg_and_set_cmd:same-representation", excl_cur and add_repr == test_repr,
-              f"get_current_registers collects {add_repr} values but the exclusion test compares {test_repr} values: the test can never match", repo.loc(m, ifst), trivial=True)
-    ctx.check("C03.S", "reg_and_set_cmd:excludes-temporaries-of-same-command", excl_tmp,
-              f"the scratch register is chosen without testing `{regvar} not in <temporaries already taken for this command>` ({src(ifst.test)})", repo.loc(m, ifst))
-    # the chosen register is recorded in the temporaries list
-    rec = any(isinstance(n, ast.Call) and isinstance(n.func, ast.Attribute) and n.func.attr == "append" and isinstance(n.func.value, ast.Name) and n.func.value.id == tmp_param
-              and n.args and isinstance(n.args[0], ast.Name) and n.args[0].id == regvar for n in A.body_nodes(f)) if tmp_param else False
-    ctx.check("C03.S", "reg_and_set_cmd:records-temporary", rec, "the chosen scratch register is not appended to the temporaries list", repo.loc(m, f))
-    # for/else: exhaustion raises
-    ctx.check("C03.S", "reg_and_set_cmd:exhaustion-raises", bool(loop.orelse) and G.always_raises(loop.orelse),
-              "when no register is free the selection loop falls through instead of raising (the last candidate would be used although it is live)", repo.loc(m, loop))
-    # the pool is the whole R bank: range(2**REG_INDEX_BITS)
+            for op in c.fields["operands"]:
+                if is_reg(op):
+                    out.add(rname(op))
+                elif isinstance(op, C.Obj) and op.cls in (ENTRY, SLICE):
+                    for v in op.fields.values():
+                        if is_reg(v):
+                            out.add(rname(v))
+        return out
+
+    programs = {}
+    programs["one literal, no registers"] = [cmd(free_instr, [101])]
+    programs["one literal next to R0..R2"] = [cmd(free_instr, regs(3) + [102])]
+    programs["literal first, registers named by later commands"] = [cmd(free_instr, [103]), C.Obj(blab, {"name": "L"}), cmd(free_instr, regs(2)), cmd(free_instr, [entry(reg("R", 2))]),
+                                                                    cmd(free_instr, [slc(reg("R", 3), reg("R", 4))])]
+    programs["registers named by earlier commands"] = [cmd(free_instr, [slc(reg("R", 0), reg("R", 1))]), cmd(free_instr, [entry(reg("R", 2))]), cmd(free_instr, [104, reg("R", 3)])]
+    programs["several literals in one command"] = [cmd(free_instr, [reg("R", 0), 105, 106, entry(107), slc(108, 109)]), C.Obj(blab, {"name": "END"})]
+    programs["literal slice bound next to a register bound"] = [cmd(free_instr, [slc(reg("R", 0), 110)]), cmd(free_instr, [slc(111, reg("R", 1))])]
+    programs["two commands with literals"] = [cmd(free_instr, [112, reg("R", 0)]), C.Obj(blab, {"name": "M"}), C.Obj(blab, {"name": "N"}), cmd(free_instr, [113, reg("R", 1)])]
+    programs["fifteen registers named, one literal"] = [cmd(free_instr, regs(8)), cmd(free_instr, regs(7, 8)), cmd(free_instr, [114])]
+    programs["registers of other banks do not count"] = [cmd(free_instr, [reg("Q", 0), reg("C", 1), reg("M", 2), 115])]
+    if exempt is not None:
+        ops = [reg("R", 0)] * (exempt[1]) + [116, 117]
+        programs[f"exempt position {exempt[1]} of {exempt[0]} keeps its literal"] = [cmd(exempt[0], ops)]
+    full = {"all sixteen registers named, one literal": [cmd(free_instr, regs(8)), cmd(free_instr, [entry(reg("R", 8)), slc(reg("R", 9), reg("R", 10))]), cmd(free_instr, regs(5, 11)),
+                                                          cmd(free_instr, [118])],
+            "fifteen registers named, two literals in one command": [cmd(free_instr, regs(8)), cmd(free_instr, regs(7, 8)), cmd(free_instr, [119, 120])]}
+
+    def run_(program):
+        sc = C.Scenario()
+        sc.plain_registers = True
+        sc.globals = {"_REPLACE_CONSTANTS_EXCEPTION": [(instr(a_), b_) for a_, b_ in sorted(exc)]}
+        try:
+            out = C.Interp(repo, ctx.ev, sc, None).call_function(m, rc, [program], {})
+            return out if out is not None else program, None
+        except C.EvalRaise as ex_:
+            return None, ex_.exc_name
+
+    n = 0
+    bad = {}
     try:
-        rng = ctx.ev.eval(loop.iter, m)
-        pool_ok = list(rng) == list(range(16))
-    except Unknown:
-        pool_ok = False
-    ctx.check("C03.S", "reg_and_set_cmd:pool", pool_ok, f"scratch candidates are {src(loop.iter)}, expected indices 0..15", repo.loc(m, loop), trivial=True)
-    # temporaries list is fresh per command and shared by all operands of that command
-    per_cmd = False
-    for wl in [n for n in ast.walk(rc) if isinstance(n, ast.While)]:
-        for st in wl.body:
-            if isinstance(st, (ast.Assign, ast.AnnAssign)):
-                t = st.targets[0] if isinstance(st, ast.Assign) else st.target
-                v = st.value
-                if isinstance(t, ast.Name) and isinstance(v, ast.List) and not v.elts:
-                    tmpname = t.id
-                    calls = [c for c in ast.walk(wl) if isinstance(c, ast.Call) and A.call_name(c) == f.name]
-                    per_cmd = bool(calls) and all(any(isinstance(a, ast.Name) and a.id == tmpname for a in c.args) for c in calls)
-    ctx.check("C03.S", "_replace_constants:temporaries-per-command", per_cmd,
-              "the list of temporaries is not created once per command and passed to every scratch-register request of that command", repo.loc(m, rc))
-    # the set instruction writes the chosen register with the literal
-    set_ok = False
-    for call in A.calls_in(f):
-        if A.call_name(call) == "ICmd":
-            kw = A.kwargs_of(call)
-            ops = kw.get("operands")
-            ins = kw.get("instruction")
-            if isinstance(ops, ast.List) and len(ops.elts) == 2 and ins is not None and A.norm(ins) == "GenericInstr.SET":
-                set_ok = isinstance(ops.elts[0], ast.Name) and ops.elts[0].id == regvar and isinstance(ops.elts[1], ast.Name) and ops.elts[1].id == params[0]
-    ctx.check("C03.S", "reg_and_set_cmd:set-writes-chosen-register", set_ok, "the inserted command is not `set <chosen register> <literal>`", repo.loc(m, f))
+        for label, program in programs.items():
+            import copy as _copy
+            n += 1
+            source = list(program)
+            sites = {id(c): literal_sites(c) for c in source if c.cls is icmd}
+            named = named_registers(source)
+            out, raised = run_(program)
+            if raised is not None:
+                bad.setdefault("completes", (label, f"raises {raised} although registers are free"))
+                continue
+            if not isinstance(out, list):
+                bad.setdefault("completes", (label, f"returns {out!r}"))
+                continue
+            # the source commands, in order, with the inserted commands grouped in front of the one they precede
+            groups, pending, k = [], [], 0
+            for c in out:
+                if k < len(source) and c is source[k]:
+                    groups.append((c, pending))
+                    pending, k = [], k + 1
+                else:
+                    pending.append(c)
+            if k != len(source) or pending:
+                bad.setdefault("source-kept", (label, "the source commands and labels do not all appear, once and in order, in the result"))
+                continue
+            for c, ins in groups:
+                want = sites.get(id(c), [])
+                if len(ins) != len(want):
+                    bad.setdefault("one-set-per-literal", (label, f"{len(ins)} commands are inserted before a command with {len(want)} literals to materialise"))
+                    continue
+                used = []
+                for kind, j, attr, lit in want:
+                    holder = c.fields["operands"][j]
+                    now = holder if kind == "operand" else holder.fields[attr]
+                    if not is_reg(now):
+                        bad.setdefault("literal-replaced", (label, f"the literal {lit} ({kind} {attr or j}) is still {now!r} after the pass"))
+                        continue
+                    sets = [x for x in ins if isinstance(x, C.Obj) and x.cls is icmd and isinstance(x.fields.get("instruction"), EnumMember) and x.fields["instruction"].name == "SET"
+                            and len(x.fields.get("operands", [])) == 2 and is_reg(x.fields["operands"][0]) and rname(x.fields["operands"][0]) == rname(now) and x.fields["operands"][1] == lit
+                            and not x.fields.get("args")]
+                    if len(sets) != 1:
+                        bad.setdefault("set-writes-chosen-register", (label, f"the literal {lit} was replaced by {rname(now)} but the commands inserted before it are {ins!r}: not exactly one `set {rname(now)} {lit}`"))
+                    nm = now.fields.get("name")
+                    if not (isinstance(nm, EnumMember) and nm.name == "R" and isinstance(now.fields.get("index"), int) and 0 <= now.fields["index"] < 16):
+                        bad.setdefault("pool", (label, f"the scratch register {rname(now)} is not one of R0..R15"))
+                    if rname(now) in named:
+                        bad.setdefault("excludes-program-registers", (label, f"the literal {lit} is loaded into {rname(now)}, which the source program names (registers named: {sorted(named)}): the inserted `set` overwrites a register of the program"))
+                    if rname(now) in used:
+                        bad.setdefault("excludes-temporaries-of-same-command", (label, f"two literals of one command are loaded into the same register {rname(now)}: the second `set` overwrites the first"))
+                    used.append(rname(now))
+                # exempt positions
+                iname = c.fields["instruction"].name if c.cls is icmd else None
+                for j, op in enumerate(c.fields.get("operands", [])) if c.cls is icmd else []:
+                    if (iname, j) in exc and not isinstance(op, int):
+                        bad.setdefault("exempt-stays-literal", (label, f"operand {j} of {iname} must stay an immediate but became {op!r}"))
+        for label, program in full.items():
+            n += 1
+            out, raised = run_(program)
+            if raised is None:
+                bad.setdefault("exhaustion-raises", (label, "assembling succeeds although no register is free: some register the program names is overwritten by an inserted `set`"))
+    except AnalysisError as ex_:
+        ctx.error("C03.S", f"_replace_constants cannot be evaluated: {ex_}")
+        return
+    ctx.anchor("C03.S", "programs executed through _replace_constants", n, 10)
+    texts = {"completes": "the pass does not complete on a program with free registers", "source-kept": "source commands are dropped, duplicated or reordered",
+             "one-set-per-literal": "not exactly one inserted command per literal", "literal-replaced": "a literal is left in a position that needs a register",
+             "set-writes-chosen-register": "the inserted command is not `set <chosen register> <literal>`", "pool": "scratch candidates are not R0..R15",
+             "excludes-program-registers": "the scratch register is one the program names", "excludes-temporaries-of-same-command": "two literals of one command share a scratch register",
+             "exempt-stays-literal": "an immediate position lost its literal", "exhaustion-raises": "no free register is not an error"}
+    for key, text in texts.items():
+        hit = bad.get(key)
+        ctx.check("C03.S", f"_replace_constants:{key}", hit is None, f"{text}: program `{hit[0]}`: {hit[1]}" if hit else "", repo.loc(m, rc), sample={"programs": n})
 
 
 def check_lookup(ctx):
@@ -606,13 +676,13 @@ SEEDS = [
     dict(id="c03-scratch-ignores-slices", file=T, expect="C03.S", construct="ArraySlice.stop", old="                values = [op.start, op.stop]", new="                values = [op.start]"),
     dict(id="c03-scratch-ignores-entry", file=T, expect="C03.S", construct="ArrayEntry.index",
          old="            if isinstance(op, ArrayEntry):\n                values = [op.index]\n            elif isinstance(op, ArraySlice):", new="            if isinstance(op, ArraySlice):"),
-    dict(id="c03-tests-outer-operand", file=T, expect="C03.S", construct="records-the-value-it-tested", old="                if isinstance(value, Register):\n                    current_registers.add(str(value))", new="                if isinstance(op, Register):\n                    current_registers.add(str(value))"),
+    dict(id="c03-tests-outer-operand", file=T, expect="C03.S", construct="get_current_registers:Array", old="                if isinstance(value, Register):\n                    current_registers.add(str(value))", new="                if isinstance(op, Register):\n                    current_registers.add(str(value))"),
     dict(id="c03-scratch-tmp-not-excluded", file=T, expect="C03.S", construct="excludes-temporaries",
          old="            if str(register) not in current_registers and register not in tmp_registers:", new="            if str(register) not in current_registers:"),
     dict(id="c03-scratch-repr-mismatch", file=T, expect="C03.S", construct="",
          old="            if str(register) not in current_registers and register not in tmp_registers:", new="            if register not in current_registers and register not in tmp_registers:"),
     dict(id="c03-table-key", file=T, expect="C03.X", construct="table-key", old="and (command.instruction, j) not in _REPLACE_CONSTANTS_EXCEPTION", new="and (command.instruction, j + 1) not in _REPLACE_CONSTANTS_EXCEPTION"),
-    dict(id="c03-tmp-per-operand", file=T, expect="C03.S", construct="temporaries-per-command",
+    dict(id="c03-tmp-per-operand", file=T, expect="C03.S", construct="excludes-temporaries-of-same-command",
          old="                register, set_command = reg_and_set_cmd(\n                    operand, tmp_registers, lineno=command.lineno\n                )", new="                register, set_command = reg_and_set_cmd(\n                    operand, [], lineno=command.lineno\n                )"),
     dict(id="c03-skip-debug", file=T, expect="C03.M", construct="one-instruction-per-command",
          old="        new_command.lineno = command.lineno\n        instructions.append(new_command)", new="        new_command.lineno = command.lineno\n        if new_command.operands:\n            instructions.append(new_command)"),
